@@ -94,9 +94,9 @@ theorem groupParse_unguarded_oob : groupParse [] "g:x:1".toList = .oob := by dec
 /-- the checked model and C16's pattern-matching model of `UserEntry.Parse` agree on every line -/
 theorem userParse_refines (line : Text) :
     userParse Generated.lenGuards_UserParse line = Res.ofOption (parseUser line) := by
-  unfold userParse parseUser
+  unfold userParse parseUser parseUserWith
   rw [userGuard]
-  generalize splitOnChar ':' (trimSpace line) = parts
+  generalize splitOnChar ':' (trimEOL line) = parts
   match parts with
   | [] | [_] | [_, _] | [_, _, _] | [_, _, _, _] | [_, _, _, _, _] | [_, _, _, _, _, _] =>
     simp [passes, Op.holds, Res.ofOption]
@@ -109,7 +109,7 @@ theorem groupParse_refines (line : Text) :
     groupParse Generated.lenGuards_GroupParse line = Res.ofOption (parseGroup line) := by
   unfold groupParse parseGroup parseGroupWith
   rw [groupGuard]
-  generalize splitOnChar ':' (trimSpace line) = parts
+  generalize splitOnChar ':' (trimEOL line) = parts
   match parts with
   | [] | [_] | [_, _] | [_, _, _] => simp [passes, Op.holds, Res.ofOption]
   | [n, pw, gid, mem] =>
